@@ -21,7 +21,7 @@
    checked entry by entry inside the kernel. *)
 From Coq Require Import NArith List Bool.
 From AV Require Import Generated.Style Generated.Render Spec.Vt Spec.Strip Spec.Sgr Spec.Algebra Spec.Render
-  Model.Base Model.Style Model.Render Proofs.Render Generated.RenderFn Proofs.RenderGen.
+  Spec.Io Model.Base Model.Style Model.Render Proofs.Render Generated.StyleFn Generated.RenderFn Proofs.RenderGen.
 Import ListNotations.
 Local Open Scope N_scope.
 
@@ -207,3 +207,140 @@ Theorem c05_translated_buffers_are_model :
     gr_shown (gr_color_bg_buffer c) = rn_color_bg_buffer c /\
     gr_shown (gr_color_ul_buffer c) = rn_color_ul_buffer c.
 Proof. exact translated_buffers_are_model. Qed.
+
+(* ---- the tie by translation, core::fmt and io::Write side -------------------------------------------
+   Generated/RenderFn.v also holds (translated on every run from color.rs, effect.rs, style.rs, reset.rs):
+   impl Display for DisplayBuffer / NullFormatter / EffectsDisplay / Reset / StyleDisplay / Style,
+   Style::{fmt_to, render, render_reset, write_to, write_reset_to}, Effects::write_to, DisplayBuffer::write_to,
+   Color::write_{fg,bg,underline}_to, the render_fg / render_bg of the three colour types, Reset::render, the From
+   impls of color.rs and `on` / `on_default`.  A Formatter is [rn_fmtr]: the hand model's [rn_fmt] over a sink that
+   answers every write_str from a script ([mkRnFmtr f []]: a sink that never fails, a String); a translated `fmt`
+   answers the new formatter and the fmt::Result ([ok_fmt]: the hand model's formatter and Ok(())).
+   [gr_format alternate flags fmt] = `format!("{:<flags>}", x)` for the translated Display impl [fmt] of x
+   (an Err makes format! panic).  `&mut dyn io::Write` is the scripted writer of Spec/Io.v;
+   [wr_bufs write w bufs] = the fragments handed to the sink in order, the first error stops ([write] is
+   Formatter::write_str or io::Write::write_all). *)
+
+(* Style::fmt_to (the central rendering function) *)
+Theorem c05_translated_fmt_to_is_model :
+  forall s f, gr_style_fmt_to s (mkRnFmtr f []) = ok_fmt (rn_style_fmt_to s f).
+Proof. exact gr_style_fmt_to_eq. Qed.
+
+(* ... on ANY formatter (a sink that fails at some write_str): the fragments are the buffers of the hand model's
+   write_to -- their concatenation is what render() shows, c05_paths_agree --, each handed to write_str in
+   order; the first fmt::Error is returned and nothing more is written *)
+Theorem c05_translated_fmt_to_any_sink :
+  forall s bufs f, rn_write_to s = Some bufs -> gr_style_fmt_to s f = Some (wr_bufs rn_fw_write_str f bufs).
+Proof. exact translated_fmt_to_any_sink. Qed.
+
+(* impl Display for Style, both branches of `f.alternate()` *)
+Theorem c05_translated_style_fmt_is_model :
+  forall s f, gr_style_fmt s (mkRnFmtr f []) = ok_fmt (rn_style_fmt s f).
+Proof. exact gr_style_fmt_eq. Qed.
+
+(* format!("{:<flags>}", style): the hand model's [rn_display], the subject of c05_flags_irrelevant / c05_display_forms *)
+Theorem c05_translated_display_is_model :
+  forall alternate flags s, gr_format alternate flags (gr_style_fmt s) = rn_display alternate flags s.
+Proof. exact translated_display_is_model. Qed.
+
+(* format!("{:<flags>}", style.render()): StyleDisplay::fmt on what Style::render returns *)
+Theorem c05_translated_render_is_model :
+  forall alternate flags s,
+  gr_format alternate flags (gr_style_display_fmt (gr_style_render s)) = rn_display_render alternate flags s.
+Proof. exact translated_render_is_model. Qed.
+
+(* style.render().to_string() is [rn_render_style], the subject of the round-trip theorems above *)
+Theorem c05_translated_render_style_is_model :
+  forall s, gr_render_style s = rn_render_style s.
+Proof. exact translated_render_style_is_model. Qed.
+
+(* style.render_reset(): the text of the NullFormatter, and its Display *)
+Theorem c05_translated_render_reset_is_model :
+  forall s, gr_style_render_reset s = rn_render_reset s.
+Proof. exact gr_style_render_reset_eq. Qed.
+
+Theorem c05_translated_render_reset_display_is_model :
+  forall alternate flags s,
+  gr_format alternate flags (fun f => Some (gr_null_fmt (gr_style_render_reset s) f)) = rn_display_reset_of alternate flags s.
+Proof. exact translated_render_reset_is_model. Qed.
+
+(* Effects::render, Color::render_fg / render_bg, AnsiColor::render_fg / render_bg, Reset *)
+Theorem c05_translated_displays_are_model :
+  forall alternate flags,
+  (forall e, gr_format alternate flags (gr_effects_fmt (g_eff_render e)) = rn_display_effects alternate flags e) /\
+  (forall c, gr_format alternate flags (fun f => d <- gr_color_render_fg (rn_color_view_of c) ;; gr_dbuf_fmt d f)
+             = rn_display_color_fg alternate flags c) /\
+  (forall c, gr_format alternate flags (fun f => d <- gr_color_render_bg (rn_color_view_of c) ;; gr_dbuf_fmt d f)
+             = rn_display_color_bg alternate flags c) /\
+  (forall a, gr_format alternate flags (fun f => nf <- gr_ansi_render_fg a ;; Some (gr_null_fmt nf f))
+             = rn_display_ansi_fg alternate flags a) /\
+  (forall a, gr_format alternate flags (fun f => nf <- gr_ansi_render_bg a ;; Some (gr_null_fmt nf f))
+             = rn_display_ansi_bg alternate flags a) /\
+  gr_format alternate flags (fun f => Some (gr_reset_fmt (gr_reset_render tt) f)) = rn_display_reset alternate flags.
+Proof. exact translated_displays_are_model. Qed.
+
+(* Ansi256Color / RgbColor::render_fg / render_bg *)
+Theorem c05_translated_color_renders_are_buffers :
+  (forall n, gr_shown (gr_a256_render_fg n) = rn_ansi256_fg_buffer n) /\
+  (forall n, gr_shown (gr_a256_render_bg n) = rn_ansi256_bg_buffer n) /\
+  (forall r g b, gr_shown (gr_rgb_render_fg (r, g, b)) = rn_rgb_fg_buffer r g b) /\
+  (forall r g b, gr_shown (gr_rgb_render_bg (r, g, b)) = rn_rgb_bg_buffer r g b).
+Proof. exact translated_color_renders_are_buffers. Qed.
+
+(* hence the round trip holds of the translated code: what `style.render().to_string()` gives is SGR sequences
+   only, and a terminal that interprets them ends in the style *)
+Theorem c05_translated_render_roundtrip :
+  forall s, rn_wf (rn_sstyle s) -> rn_at_most_one_underline_kind (rn_sstyle s) ->
+  exists bs, gr_render_style s = Some bs /\
+             spec_events bs = map rn_sgr (rn_groups_of (rn_sstyle s)) /\
+             rn_interp_style (spec_events bs) style_default = rn_norm (rn_sstyle s).
+Proof. exact translated_render_roundtrip. Qed.
+
+Theorem c05_translated_display_forms :
+  forall flags s,
+  gr_format false flags (gr_style_fmt s) = gr_render_style s /\
+  gr_format true flags (gr_style_fmt s) = Some (gr_style_render_reset s).
+Proof. exact translated_display_forms. Qed.
+
+(* Style::write_to on ANY writer (short writes, Interrupted, errors): the hand model's buffers, in order, each
+   with write_all; the first error is returned and nothing more is written *)
+Theorem c05_translated_write_to_is_model :
+  forall s bufs w, rn_write_to s = Some bufs -> gr_style_write_to s w = Some (wr_bufs w_write_all w bufs).
+Proof. exact translated_write_to_is_model. Qed.
+
+(* on a writer that never fails: equal to the hand model, a panic included *)
+Theorem c05_translated_write_to_accept_all :
+  forall s w, w_script w = [] -> gr_style_write_to s w = option_map (wr_bufs w_write_all w) (rn_write_to s).
+Proof. exact translated_write_to_accept_all. Qed.
+
+(* ... and such a writer has then received the bytes `render()` shows *)
+Theorem c05_translated_write_to_bytes :
+  forall s bs, rn_render_style s = Some bs ->
+  exists w, gr_style_write_to s (writer_of []) = Some (w, inl tt) /\ w_received w = bs.
+Proof. exact translated_write_to_bytes. Qed.
+
+Theorem c05_translated_write_reset_to_is_model :
+  forall s w, gr_style_write_reset_to s w = Some (wr_bufs w_write_all w (rn_write_reset_to s)).
+Proof. exact translated_write_reset_to_is_model. Qed.
+
+(* the From impls of color.rs and `on` / `on_default` (values of Style: Model/Style.v) *)
+Theorem c05_translated_color_from_is_model :
+  (forall a, rn_color_of_view (gr_color_from_ansi a) = CoAnsi a) /\
+  (forall n, rn_color_of_view (gr_color_from_a256 n) = CoAnsi256 n) /\
+  (forall r g b, rn_color_of_view (gr_color_from_rgb (r, g, b)) = CoRgb r g b) /\
+  (forall n, rn_color_of_view (gr_color_from_u8 n) = CoAnsi256 n) /\
+  (forall r g b, rn_color_of_view (gr_color_from_tuple (r, g, b)) = CoRgb r g b) /\
+  (forall n, gr_a256_from_u8 n = n) /\
+  (forall r g b, gr_rgb_from_tuple (r, g, b) = (r, g, b)).
+Proof. exact translated_color_from_is_model. Qed.
+
+Theorem c05_translated_on_is_model :
+  (forall c b, gr_color_on (rn_color_view_of c) (rn_color_view_of b) = st_on c b) /\
+  (forall a b, gr_ansi_on a (rn_color_view_of b) = st_on (CoAnsi a) b) /\
+  (forall n b, gr_a256_on n (rn_color_view_of b) = st_on (CoAnsi256 n) b) /\
+  (forall r g bl b, gr_rgb_on (r, g, bl) (rn_color_view_of b) = st_on (CoRgb r g bl) b) /\
+  (forall c, gr_color_on_default (rn_color_view_of c) = st_on_default c) /\
+  (forall a, gr_ansi_on_default a = st_on_default (CoAnsi a)) /\
+  (forall n, gr_a256_on_default n = st_on_default (CoAnsi256 n)) /\
+  (forall r g bl, gr_rgb_on_default (r, g, bl) = st_on_default (CoRgb r g bl)).
+Proof. exact translated_on_is_model. Qed.
